@@ -35,6 +35,7 @@ func TestReplay(t *testing.T) {
 		t.Fatalf("no replayer for %s.%s", f.Property, f.Sub)
 	}
 	r := rec.New(f.Property, "replay")
+	r.FailSub = f.Sub
 	t.Cleanup(r.Flush)
 	fn(t, r, f.Case)
 }
